@@ -53,8 +53,26 @@ def _alt_harness():
     open(os.path.join(alt, "Cargo.toml"), "w").write(toml)
 
 
+SHIM = os.path.join(VERIF, "harness", "target", "failmmap.so")
+
+
+def build_shim():
+    """LD_PRELOAD shim that makes file-backed shared mappings fail (harness/shim/failmmap.c)."""
+    src = os.path.join(VERIF, "harness", "shim", "failmmap.c")
+    if os.path.exists(SHIM) and os.path.getmtime(SHIM) >= os.path.getmtime(src):
+        return SHIM
+    os.makedirs(os.path.dirname(SHIM), exist_ok=True)
+    rc, o = run(["gcc", "-shared", "-fPIC", "-O1", "-o", SHIM + ".tmp", src, "-ldl"], cwd=VERIF, timeout=120)
+    if rc != 0:
+        log(o[-2000:])
+        raise SystemExit("cannot build the mmap shim")
+    os.replace(SHIM + ".tmp", SHIM)
+    return SHIM
+
+
 def build_harness(flavours):
     """Rebuild the harness (and therefore cacache from REPO's working tree) for each flavour."""
+    build_shim()
     if REPO != "/repo":
         _alt_harness()
     out = {}
